@@ -373,6 +373,215 @@ func fakeAssemblerMain(args []string) {
 	}
 }
 
+// ---------------------------------------------------------------------------------------
+// the two step tool chain of AsmType ca65: `<dir>/ca65 -I <src> -o <obj> <source>` and then
+// `<dir>/cl65 -C c64-asm.cfg --start-addr 0x.... -o <bin> <obj>`
+
+// ca65ToolDir makes a directory with two entries `ca65` and `cl65` that are this executable (links, or copies where the
+// file system has no links)
+func ca65ToolDir(dir string) string {
+	self, err := os.Executable()
+	if err != nil {
+		panic(err)
+	}
+	td := filepath.Join(dir, "ca65tools")
+	os.RemoveAll(td)
+	if err := os.MkdirAll(td, 0700); err != nil {
+		panic(err)
+	}
+	for _, nm := range []string{"ca65", "cl65"} {
+		p := filepath.Join(td, nm)
+		if os.Symlink(self, p) == nil {
+			continue
+		}
+		data, err := os.ReadFile(self)
+		if err != nil {
+			panic(err)
+		}
+		if err := os.WriteFile(p, data, 0700); err != nil {
+			panic(err)
+		}
+	}
+	return td
+}
+
+func toolArgs(args []string) (out string, last string) {
+	for i := 0; i+1 < len(args); i++ {
+		if args[i] == "-o" {
+			out = args[i+1]
+		}
+	}
+	if len(args) > 0 {
+		last = args[len(args)-1]
+	}
+	return
+}
+
+// fakeCa65Main: the assembler step.  The object file is a header line followed by the source text; a source containing
+// `;fail` does not assemble (no object file is written).
+func fakeCa65Main(args []string) {
+	out, src := toolArgs(args)
+	data, err := os.ReadFile(src)
+	if err != nil || out == "" || len(args) < 5 || args[0] != "-I" {
+		fmt.Println("fake ca65: bad command line or unreadable source")
+		os.Exit(1)
+	}
+	if strings.Contains(string(data), ";fail") {
+		fmt.Println("fake ca65: drv.s(1): Error: Illegal addressing mode")
+		os.Exit(1)
+	}
+	os.MkdirAll(filepath.Dir(out), 0700)
+	if err := os.WriteFile(out, append([]byte("FAKEOBJ\n"), data...), 0600); err != nil {
+		fmt.Println("fake ca65: cannot write object file")
+		os.Exit(1)
+	}
+}
+
+// fakeCl65Main: the link step.  An object whose source contained `;linkfail` does not link: the output file is left as
+// it is (the real linker does not produce one either) and the exit status is 1.
+func fakeCl65Main(args []string) {
+	out, obj := toolArgs(args)
+	data, err := os.ReadFile(obj)
+	text := string(data)
+	if err != nil || out == "" || !strings.HasPrefix(text, "FAKEOBJ\n") {
+		fmt.Println("fake cl65: bad command line or not an object file")
+		os.Exit(1)
+	}
+	start := ""
+	for i := 0; i+1 < len(args); i++ {
+		if args[i] == "--start-addr" {
+			start = args[i+1]
+		}
+	}
+	if strings.Contains(text, ";linkfail") {
+		fmt.Println("ld65: Error: Unresolved external 'mul16' referenced in: drv.s(3)")
+		os.Exit(1)
+	}
+	i := strings.Index(text, ";hex ")
+	if i < 0 {
+		fmt.Println("fake cl65: no program")
+		os.Exit(1)
+	}
+	hx := strings.TrimSpace(strings.SplitN(text[i+5:], "\n", 2)[0])
+	bin := []byte{}
+	for k := 0; k+1 < len(hx); k += 2 {
+		var b uint8
+		fmt.Sscanf(hx[k:k+2], "%02x", &b)
+		bin = append(bin, b)
+	}
+	// the program starts with its load address, which the linker is told on its command line
+	if len(bin) < 2 || start != fmt.Sprintf("0x%02x%02x", bin[1], bin[0]) {
+		fmt.Println("fake cl65: --start-addr does not name the load address of the program")
+		os.Exit(1)
+	}
+	if err := os.WriteFile(out, bin, 0600); err != nil {
+		fmt.Println("fake cl65: cannot write output")
+		os.Exit(1)
+	}
+}
+
+// ca65Kinds: the driver kinds of the cases that go through the real commands with AsmType ca65.  `.stale`: the binary
+// directory (it is persistent between runs of the commands) still holds the binary of an earlier, successful build of the
+// same driver: INX; BRK, which satisfies the script.  A case whose driver can not be built has failed all the same.
+var ca65Kinds = []string{"ca65ok", "ca65ok.stale", "ca65asmfail", "ca65asmfail.stale", "ca65linkfail", "ca65linkfail.stale"}
+
+// verdictCa65Case: one case through commands.VerifyCommand (or, a third of the time, VerifyAllCommand on a test directory
+// that holds this case only) with a configuration of AsmType ca65 whose tool directory is toolDir
+func verdictCa65Case(r *rng.R, dir, toolDir, kind string) string {
+	td := filepath.Join(dir, "ca65case")
+	os.RemoveAll(td)
+	binDir := filepath.Join(td, "bin")
+	if err := os.MkdirAll(binDir, 0700); err != nil {
+		panic(err)
+	}
+	ni := []string{"absent", "1", "3", "2.5"}[r.Intn(4)]
+	asserts := make([]string, 4)
+	for i := range asserts {
+		asserts[i] = []string{"true", "truemsg"}[r.Intn(2)]
+	}
+	if kind == "ca65ok" && r.Chance(25) {
+		// the tool chain works: the verdict is the script's
+		asserts[r.Intn(2)] = assertKinds[r.Intn(len(assertKinds))]
+	}
+	var sb strings.Builder
+	sb.WriteString("iter = 0\n")
+	sb.WriteString(luaNumIters(ni))
+	sb.WriteString("function arrange()\n  set_pc(load_address)\nend\n")
+	sb.WriteString("function assert()\n  iter = iter + 1\n")
+	for i, a := range asserts {
+		fmt.Fprintf(&sb, "  if iter == %d then %s end\n", i+1, luaReturn(a))
+	}
+	sb.WriteString("  return true\nend\n")
+	writeFile(td, "case.lua", []byte(sb.String()))
+	writeFile(td, "t.json", []byte(`{"Name":"t","TestDriverSource":"drv.s","TestScript":"case.lua"}`))
+
+	vcfg := emuconfig.DefaultConfig()
+	vcfg.AsmType = emuconfig.AsmCa65
+	vcfg.AcmeBinary, vcfg.AcmeTestDir, vcfg.AcmeSrcDir, vcfg.AcmeBinDir = toolDir, td, td, binDir
+	cfgDir, e := os.MkdirTemp("", "verif-ca65cfg")
+	if e != nil {
+		panic(e)
+	}
+	defer os.RemoveAll(cfgDir)
+	cfgFile := filepath.Join(cfgDir, "config.json")
+	if e := vcfg.Save(cfgFile); e != nil {
+		panic(e)
+	}
+	viaAll := r.Chance(33)
+	run := func() string {
+		var err error
+		var crashed bool
+		if viaAll {
+			_, crashed = captureStdout(func() { err = commands.VerifyAllCommand([]string{"-c", cfgFile}) })
+		} else {
+			_, crashed = captureStdout(func() { err = commands.VerifyCommand([]string{"-c", cfgFile, "-t", "t"}) })
+		}
+		switch {
+		case crashed:
+			return "hostcrash"
+		case err != nil:
+			return "fail"
+		}
+		return "ok"
+	}
+	good := "; driver\n;hex " + hexOf(prg(0x0800, 0xE8, 0x00)) + "\n"
+	res := ""
+	if strings.HasSuffix(kind, ".stale") {
+		if r.Bool() {
+			// an earlier build of the driver, through the same command, that went well
+			writeFile(td, "drv.s", []byte(good))
+			if first := run(); first != "ok" {
+				res = "earlier-build-" + first
+			}
+		} else {
+			// left there by whatever built the driver last
+			writeFile(binDir, "drv.s.bin", prg(0x0800, 0xE8, 0x00))
+		}
+	}
+	// the driver as it is now: two INX (the earlier build had one), and possibly something that one of the steps refuses
+	src := "; driver\n"
+	switch strings.TrimSuffix(kind, ".stale") {
+	case "ca65asmfail":
+		src += ";fail\n"
+	case "ca65linkfail":
+		src += ".import mul16 ;linkfail\n"
+	}
+	src += ";hex " + hexOf(prg(0x0800, 0xE8, 0xE8, 0x00)) + "\n"
+	writeFile(td, "drv.s", []byte(src))
+	pend("verdict %s %s %s -1 0", kind, ni, strings.Join(asserts, ","))
+	if res == "" {
+		res = run()
+	}
+	count("verdict." + strings.TrimSuffix(kind, ".stale"))
+	if viaAll {
+		count("verdict.ca65.verifyallcommand")
+	} else {
+		count("verdict.ca65.verifycommand")
+	}
+	count("verdict." + res)
+	return fmt.Sprintf("verdict %s %s %s -1 0 => %s", kind, ni, strings.Join(asserts, ","), res)
+}
+
 // suiteViaCommand: the same suite through the real commands.VerifyAllCommand with a configuration file whose
 // assembler binary is this program (see fakeAssemblerMain)
 func suiteViaCommand(sub string, verbose bool, prexec, trap bool) string {
@@ -562,6 +771,11 @@ func verdictStream(seed uint64, n int) {
 	for _, fb := range verdictFixed {
 		emit(verdictCase(r, dir, fb))
 	}
+	// the two step tool chain of AsmType ca65 through the real commands: every kind once, then a thirtieth of the cases
+	toolDir := ca65ToolDir(dir)
+	for _, k := range ca65Kinds {
+		emit(verdictCa65Case(r, dir, toolDir, k))
+	}
 	// two long-running drivers per run (a few hundred milliseconds each): one whose assert needs the marker the driver
 	// stores last, one whose assert returns true whatever happened and whose machine is looked at afterwards
 	emit(verdictCase(r, dir, "longmark"))
@@ -570,6 +784,9 @@ func verdictStream(seed uint64, n int) {
 		emit(verdictCase(r, dir, ""))
 		if i%5 == 0 {
 			emit(suiteCase(r, dir))
+		}
+		if i%30 == 7 {
+			emit(verdictCa65Case(r, dir, toolDir, ca65Kinds[r.Intn(len(ca65Kinds))]))
 		}
 	}
 }
